@@ -5,14 +5,7 @@ import Ufo2ftModel.Props.C05Groups
 namespace Ufo2ft.C05
 open Ufo2ft List
 
-/-- the inputs for which the kern writer is claimed to realise UFO kerning semantics:
-    * the groups are valid UFO 3 kerning groups (no glyph in two groups of one side),
-    * group names are distinct and kerning keys (first, second) are distinct (both are Python dict keys),
-    * no glyph of the font is called like a kerning group (`public.kern1.*` / `public.kern2.*`). -/
-def wfKern (glyphSet : List String) (groups : List (String × List String)) (kerning : List (String × String × Q)) : Bool :=
-  validGroups groups && decide (groups.map (·.1)).Nodup &&
-  groups.all (fun e => !((is1 e.1 || is2 e.1) && glyphSet.contains e.1)) &&
-  decide (kerning.map (fun e => (e.1, e.2.1))).Nodup
+-- `wfKern` (valid groups, distinct names and keys, no glyph named like a group) is defined in Spec/C05.lean
 
 structure WF (gs : List String) (groups : List (String × List String)) (kerning : List (String × String × Q)) : Prop where
   d1 : ((groups.filter (fun e => is1 e.1)).flatMap (·.2)).Nodup
